@@ -62,6 +62,7 @@ pub fn spec_for(id: &str, engine: &str) -> Option<PropSpec> {
         ("C22", "fault") => Some(cyc::spec_c22_acyclic()),
         ("C22", "faultlat") => Some(cyc::spec_c22_lattice()),
         ("C03", "seqdur") => Some(c03::spec_c03_dur()),
+        ("C04", "seqlat") => Some(c04::spec_c04_lat()),
         ("C23", "mem") => Some(crate::memsafe::spec_c23_mem()),
         (_, "seq") => spec(id),
         _ => None,
